@@ -398,10 +398,14 @@ def enter_cell(c, root_size=64):
         st.enter_context(S.skip_posterior_variances(c["skip"]))
         st.enter_context(S.max_root_decomposition_size(root_size))
         if c["cg"]:
+            # optional c["tols"] = (cg_tolerance | None, eval_cg_tolerance | None); None leaves the global default
+            cg_tol, eval_tol = c.get("tols", (1e-10, 1e-10))
             st.enter_context(S.max_cholesky_size(0))
-            st.enter_context(S.cg_tolerance(1e-10))
-            st.enter_context(S.eval_cg_tolerance(1e-10))
-            st.enter_context(S.max_cg_iterations(100))
+            if cg_tol is not None:
+                st.enter_context(S.cg_tolerance(cg_tol))
+            if eval_tol is not None:
+                st.enter_context(S.eval_cg_tolerance(eval_tol))
+            st.enter_context(S.max_cg_iterations(c.get("max_cg_iterations", 100)))
             st.enter_context(S.max_lanczos_quadrature_iterations(root_size))
         yield
 
@@ -443,3 +447,31 @@ def observe_solves(log):
     finally:
         for cls, orig in patched:
             setattr(cls, "solve", orig)
+
+
+def kernel_eval_delta(model, train_x, test_x, J, N):
+    """How much the model's OWN kernel evaluation depends on the evaluation path, per batch element: the joint Gram
+    matrix from `forward([train; test])` vs the blocks evaluated separately (`k(x*, [x; x*])`, `k(x, x)`), which is
+    what the eager / lazy slicing paths of the prediction code do.  For kernels that take a square root of a rounded
+    squared distance (Matern-1/2: exp(-sqrt(.)) has a kink at 0) coincident points give 1e-8-level differences
+    (`k(x*_i, x*_i) = exp(-sqrt(1e-16))` unless x1 is literally x2).  That is rounding of the kernel evaluation (C05's
+    subject), and it bounds how well "the" K of the property is defined; the a-posteriori tolerances include it.
+    Returns a tensor [*batch] of max-abs differences (0 when the model has no `covar_module`)."""
+    import torch
+    import gpytorch
+    km = getattr(model, "covar_module", None)
+    if km is None:
+        return torch.zeros(J.shape[:-2], dtype=torch.float64)
+    tx = train_x if train_x.dim() > 1 else train_x.unsqueeze(-1)
+    sx = test_x if test_x.dim() > 1 else test_x.unsqueeze(-1)
+    B = torch.broadcast_shapes(tx.shape[:-2], sx.shape[:-2])
+    txe, sxe = tx.expand(*B, *tx.shape[-2:]), sx.expand(*B, *sx.shape[-2:])
+    full = torch.cat([txe, sxe], dim=-2)
+    with torch.no_grad(), gpytorch.settings.lazily_evaluate_kernels(False):
+        rows = km(sxe, full).to_dense()
+        kxx = km(txe).to_dense()
+        ktt = km(sxe).to_dense()
+    d1 = (rows - J[..., N:, :]).abs().amax(dim=(-1, -2))
+    d2 = (kxx - J[..., :N, :N]).abs().amax(dim=(-1, -2))
+    d3 = (ktt - J[..., N:, N:]).abs().amax(dim=(-1, -2))
+    return torch.maximum(torch.maximum(d1, d2), d3)
